@@ -5,7 +5,9 @@ package keystore
 // awkward key names ("..", "a/b", "../x", "A" vs "a", a name with NUL and unicode, a
 // long name) runs against the filesystem keystore, the in-memory keystore and a map;
 // Has, Get and List must agree after every step, and the directory tree around the
-// keystore directory must contain nothing but encoded key files inside it.
+// keystore directory must contain nothing but encoded key files inside it. Every third history
+// runs in a directory that also holds files that are not key files (no prefix but valid
+// base32, undecodable, unrelated): they must stay invisible.
 
 import (
 	"crypto/rand"
@@ -63,6 +65,19 @@ func TestVerifBoundedC40KeystoreModel(t *testing.T) {
 		if err != nil {
 			t.Fatal(err)
 		}
+		// every third history runs in a directory that also holds files that are not keys:
+		// a name without the key prefix that happens to be valid base32 (of "bar"), in both
+		// cases, a prefixed name that does not decode, and an unrelated file. They are not
+		// part of the map: List must not report them and Has/Get must not find them.
+		strays := map[string]bool{}
+		if idx%3 == 1 {
+			for _, n := range []string{"mjqxe", "MJQXE", keyFilenamePrefix + "!!!", "notes.txt"} {
+				if err := os.WriteFile(filepath.Join(dir, n), []byte("x"), 0o600); err != nil {
+					t.Fatal(err)
+				}
+				strays[n] = true
+			}
+		}
 		mem := NewMemKeystore()
 		model := map[string]int{}
 		var trace []string
@@ -95,6 +110,12 @@ func TestVerifBoundedC40KeystoreModel(t *testing.T) {
 			}
 			if bad != "" {
 				break
+			}
+			if len(strays) > 0 {
+				if h, _ := fsks.Has("bar"); h {
+					bad = fmt.Sprintf("step %d: Has(\"bar\") is true because of a file that is not a key file", i)
+					break
+				}
 			}
 			for _, n := range names {
 				want, ok := model[n]
@@ -141,6 +162,7 @@ func TestVerifBoundedC40KeystoreModel(t *testing.T) {
 				switch {
 				case rel == ".", rel == "outside", rel == "sub", rel == filepath.Join("sub", "ks"):
 				case filepath.Dir(rel) == filepath.Join("sub", "ks") && strings.HasPrefix(filepath.Base(rel), keyFilenamePrefix):
+				case filepath.Dir(rel) == filepath.Join("sub", "ks") && strays[filepath.Base(rel)]:
 				default:
 					bad = "file system object outside the keystore directory or with a foreign name: " + rel
 				}
